@@ -1,7 +1,7 @@
 #!/bin/bash
 # usage: seed_ingest.sh <TAG> <PROPERTY> "<one-line description of the change>"
 # confirms a sub-agent's change in its scratch worktree (/tmp/wt_<TAG>, files in /tmp/seed_<TAG>) and stores it under seeded/<TAG>
-T=$1; P=$2; D=$3; V=$(cd "$(dirname "$0")/.." && pwd)
+T=$1; P=$2; D=$3; export WAVE=${T##*w}; V=$(cd "$(dirname "$0")/.." && pwd)
 OUT=$("$V/tools/seed_verify.sh" "$T" 2>&1); echo "$OUT"
 echo "$OUT" | grep -q "with patch, original tests: test result: ok. 74 passed" || { echo "REJECT: tests"; exit 1; }
 echo "$OUT" | grep -q "with patch, + demo: test result: FAILED" || { echo "REJECT: demo does not fail"; exit 1; }
@@ -14,6 +14,6 @@ head=subprocess.run(["git","-C","/repo","rev-parse","--short","HEAD"],capture_ou
 json.dump({"property_broken":p,"change":d,"needs_to_manifest":"see notes.md",
  "confirmed":"re-run by hand in the sub-agent's scratch worktree (tree %s): 74 original tests pass with the patch; demo test(s) fail with the patch and pass without it"%head,
  "checks_run":"tools/seed_par.py "+t,
- "origin":"sub-agent given only the property text and a scratch worktree, told not to read /repo or /verif (wave 11)"},open(v+"/seeded/"+t+"/meta.json","w"),indent=1)
+ "origin":"sub-agent given only the property text and a scratch worktree, told not to read /repo or /verif (wave %s)" % __import__("os").environ.get("WAVE","11")},open(v+"/seeded/"+t+"/meta.json","w"),indent=1)
 PY
 git -C /repo worktree remove --force /tmp/wt_$T && rm -rf /tmp/seed_$T && echo "STORED $T"
